@@ -481,3 +481,57 @@ Theorem C07_restart_event_reaches_no_hook :
   forall names0 cs, Forall (fun r => r = []) (hs_emit (hrun (hinit names0) cs)).
 Proof. exact restart_event_reaches_no_hook. Qed.
 Print Assumptions C07_restart_event_reaches_no_hook.
+
+(* ---------------------------------------------------------------------------------------------
+   Generations.  A connection is only ever taken by the generation in force or by the one being
+   started by a valid configuration, and that generation serves the connection's address. *)
+Theorem C07_accept_only_by_live_generation :
+  forall s k i s', reachable s -> step s (LAccept k i) = Some s' ->
+  exists c, nth_error (conns s) k = Some c /\ cst c = CQueued /\ In (caddr c) (addrs_of s i) /\
+            (i = cur s \/ pending s = Some i /\ fate_of s i = 0).
+Proof. exact accept_only_by_live. Qed.
+Print Assumptions C07_accept_only_by_live_generation.
+
+Example C07_accept_only_by_live_generation_nonvacuous :
+  exists s s', reachable s /\ step s (LAccept 0 1) = Some s' /\ cur s = 0 /\ pending s = Some 1.
+Proof.
+  destruct (run (init [0] []) [LNew 0 0; LConnect 0; LCall [0] 0; LLoadOk; LCbOk; LDup; LAdv; LSpawn]) as [s|] eqn:E;
+    [|vm_compute in E; discriminate].
+  exists s. eexists. split; [exists [0], []; eexists; split; [reflexivity|exact E]|].
+  vm_compute in E. injection E as <-. vm_compute. repeat split; reflexivity.
+Qed.
+
+(* The generation in force only moves forward, and once a generation has been replaced (its Stop
+   has completed: a later one is in force) it never again has an acceptor or a descriptor of any
+   listening socket, whatever reloads and requests follow: it takes no connection after that. *)
+Theorem C07_generation_in_force_monotone :
+  forall ls s s', reachable s -> run s ls = Some s' -> cur s <= cur s'.
+Proof. exact cur_monotone. Qed.
+Print Assumptions C07_generation_in_force_monotone.
+
+Theorem C07_stopped_generation_never_accepts_again :
+  forall s i ls s' a, reachable s -> i < cur s -> run s ls = Some s' ->
+  ~ In i (acc s' a) /\ ~ In i (fdh s' a).
+Proof. exact stopped_never_accepts_again. Qed.
+Print Assumptions C07_stopped_generation_never_accepts_again.
+
+(* "No generation ANSWERS after its Stop has completed" is false of the code: a connection the
+   old server holds beyond the graceful timeout stays with it and is answered by the OLD
+   configuration after the successful return (Shutdown's context expires; nothing kills the
+   connection).  Witness: the drain-timeout schedule; the old generation has no acceptor left. The
+   strongest true statements: C07_stopped_generation_never_accepts_again (it takes nothing new),
+   C07_each_conn_one_instance / C07_after_return_new_config (what it answers it had accepted
+   while it was live, at an address it served). *)
+Theorem C07_no_answer_after_stop_refuted :
+  exists s k c i s', reachable s /\ rst s = RIdle /\ nth_error (conns s) k = Some c /\ cst c = CAccepted i /\
+                     i <> cur s /\ acc s (caddr c) = [cur s] /\ step s (LAnswer k) = Some s'.
+Proof. exact no_answer_after_stop_refuted. Qed.
+Print Assumptions C07_no_answer_after_stop_refuted.
+
+Theorem C07_no_answer_after_stop_partial :
+  forall s i ls s' a k c, reachable s -> i < cur s -> run s ls = Some s' ->
+  (~ In i (acc s' a) /\ ~ In i (fdh s' a)) /\
+  (nth_error (conns s') k = Some c -> accepted_by (cst c) = Some i ->
+   cborn c <= i /\ In (caddr c) (addrs_of s' i)).
+Proof. exact no_answer_after_stop_partial. Qed.
+Print Assumptions C07_no_answer_after_stop_partial.
